@@ -191,6 +191,17 @@ def export_leaf_appends_clones(atom, f, node, site):
 _KIND_LISTS = {"BaseSection": ("_sections", "sections"), "BaseProperty": ("_props", "properties")}
 
 
+def _names_class(atom, f, e, kind):
+    """the expression denotes exactly the class `kind` (by name, or through a local / helper that returns the class)"""
+    if norm(e).split(".")[-1] == kind:
+        return True
+    try:
+        ks = atom.k.ek(e, f, atom.k.envs.get(f.qualname, {}))
+    except Exception:
+        return False
+    return bool(ks) and set(ks) == set(["class:" + kind])
+
+
 def _precheck_loop(atom, f, first, second_iter):
     """obligations of the PRECHECKED contract on the first loop of an extend method (see the contract text).
     Returns the set of kinds whose elements are known to carry names that are new to the child list of that
@@ -208,6 +219,7 @@ def _precheck_loop(atom, f, first, second_iter):
         return set()
     me = f.params[0]
     name_txt = "%s._name" % y      # getter-normalised text
+    ax = atom.an.alias_expander(f) if hasattr(atom.an, "alias_expander") else None
 
     def add_of(n):
         """(collection local) when node n is `S.append(y.name)` / `S.add(y.name)`"""
@@ -230,18 +242,18 @@ def _precheck_loop(atom, f, first, second_iter):
     adds = [(n, add_of(n)) for n in g.nodes if n.id in body and add_of(n)]
     if not adds:
         return set()
-    # every completed iteration passes one of the adds
-    seen = set()
-    stack = [m for k, m in hd.succ if k == "iter"]
-    add_ids = set(n.id for n, _ in adds)
-    while stack:
-        n = stack.pop()
-        if n.id == hd.id:
-            return set()
-        if n.id in seen or n.id in add_ids:
-            continue
-        seen.add(n.id)
-        stack.extend(m for k, m in n.succ if k != "exc")
+    # every completed iteration passes one of the adds (on every propositionally feasible path)
+    from .logic import reach_feasible
+
+    def kind_label(lf):
+        if isinstance(lf, ast.Call) and isinstance(lf.func, ast.Name) and lf.func.id == "isinstance" and len(lf.args) == 2 \
+                and norm(lf.args[0]) == y:
+            for kind in _KIND_LISTS:
+                if _names_class(atom, f, lf.args[1], kind):
+                    return "IS:" + kind
+        return None
+    if reach_feasible(g, [m for k, m in hd.succ if k == "iter"], hd, stop_ids=set(n.id for n, _ in adds), classify=kind_label, norm_fn=norm):
+        return set()
     kinds = {}
     for n, coll in adds:
         # the collection: one empty literal definition before the loop, otherwise only read by `in` and filled by these adds
@@ -271,12 +283,17 @@ def _precheck_loop(atom, f, first, second_iter):
         for kind, lists in _KIND_LISTS.items():
             def classify(lf, kind=kind, lists=lists):
                 if isinstance(lf, ast.Call) and isinstance(lf.func, ast.Name) and lf.func.id == "isinstance" and len(lf.args) == 2 \
-                        and norm(lf.args[0]) == y and norm(lf.args[1]).split(".")[-1] == kind:
+                        and norm(lf.args[0]) == y and _names_class(atom, f, lf.args[1], kind):
                     return "K"
                 if isinstance(lf, ast.Compare) and len(lf.ops) == 1 and isinstance(lf.ops[0], ast.In) and norm(lf.left) == name_txt:
                     r = lf.comparators[0]
                     if isinstance(r, ast.Name) and r.id == coll:
                         return "S"
+                    if isinstance(r, ast.Name) and ax is not None:
+                        try:
+                            r = ax.expand(r, hd)
+                        except Exception:
+                            pass
                     if isinstance(r, ast.Attribute) and isinstance(r.value, ast.Name) and r.value.id == me and r.attr in lists:
                         return "C"
                 return None
@@ -289,6 +306,23 @@ def _precheck_loop(atom, f, first, second_iter):
     return set(kinds.values())
 
 
+def _append_family(atom):
+    """the three append methods and the private helpers they call (where their kind / name clash refusals are written)"""
+    cache = atom.__dict__.setdefault("_append_family", None)
+    if cache is None:
+        from .dataflow import private_closure
+        cache = set()
+        for qn in ("base.SmartList.append", "base.Sectionable.append", "section.BaseSection.append"):
+            try:
+                fn = atom.an.p.func(qn)
+            except Exception:
+                continue
+            for h in private_closure(fn):
+                cache.add(h.short)
+        atom.__dict__["_append_family"] = cache
+    return cache
+
+
 def extend_names_prechecked(atom, f, node, site):
     """X.extend(objs) -> self.append(obj) in a loop over the parameter: a first loop over the same parameter refuses every
     element that is not a Section/Property, whose name is used in the child list of its kind, or whose name occurred
@@ -298,8 +332,7 @@ def extend_names_prechecked(atom, f, node, site):
         return False
     if _callee(site) != "append" or not _is_self(f, _recv(site)):
         return False
-    if site.origin[0] not in ("base.SmartList.append", "base.Sectionable.append", "section.BaseSection.append") \
-            or site.exc not in ("KeyError", "ValueError"):
+    if site.exc not in ("KeyError", "ValueError") or site.origin[0] not in _append_family(atom):
         return False
     c = site.call
     if len(c.args) != 1 or c.keywords or not isinstance(c.args[0], ast.Name):
